@@ -318,7 +318,7 @@ def check_c08(pid, tier, seed, res, work):
         # reference: F alone
         base = '%s/b%d' % (work, i)
         qrun.write_project(base, [F])
-        ctx_kind = ['copies', 'fragments', 'malformed', 'unreadable_file', 'unreadable_dir', 'dangling_symlink', 'decoys', 'callers', 'dir_symlinks', 'file_symlinks', 'same_names', 'crowd'][i % 12]
+        ctx_kind = ['copies', 'fragments', 'malformed', 'unreadable_file', 'unreadable_dir', 'dangling_symlink', 'decoys', 'callers', 'dir_symlinks', 'file_symlinks', 'same_names', 'crowd', 'changing'][i % 13]
         ctx = []
         if ctx_kind == 'copies':
             ctx = [('src/Copy.java', F[1]), ('other/Target%d.java' % i, F[1])]
@@ -346,6 +346,13 @@ def check_c08(pid, tier, seed, res, work):
             nm = 'Target%d.java' % i
             ctx = [('%s/%s' % (d1, nm), t2.encode()), ('%s/%s/%s' % (d2, d3, nm), b'class Other { int q = 1 + 2; }'), ('src/%s%s' % (letters[0], nm), t2.encode()),
                    (nm, b'class Top { void t() { u(3); } }'), ('src/sub/%s' % nm, F[1] + b'\nclass Extra { }\n')]
+        elif ctx_kind == 'changing':
+            # the target CHANGES on disk between its discovery and the moment a worker reads it (an editor save, a
+            # checkout during the scan): it becomes shorter; its siblings are longer files read before it.  What is
+            # reported for it is what its NEW content yields alone
+            for j in range(30):
+                tj, _, _ = javagen.gen_unit(seed + 1300, i + 20 + j, size=0.8)
+                ctx.append(('a%d/Sib%d.java' % (j % 5, j), (tj + '\n// padding ' + 'x' * 3000 + '\n').encode()))
         elif ctx_kind == 'crowd':
             # hundreds of small well-formed siblings walked BEFORE the target, and the scan allowed 64 open files
             ctx = [('a%d/S%03d.java' % (k % 5, k), ('class S%03d { int f = %d + 1; void m() { g(%d); } }\n' % (k, k, k)).encode()) for k in range(400)]
@@ -355,6 +362,11 @@ def check_c08(pid, tier, seed, res, work):
             ctx = [('src/zz/Sib.java', b'class Sib { void s() { t(1 + 2); } }'), ('aa/First.java', b'class First { int q; }')]
         var = '%s/v%d' % (work, i)
         qrun.write_project(var, [F] + ctx)
+        if ctx_kind == 'changing':
+            new_src = 'class Shorter%d { int keep = %d + 1; void only() { call%d(2); } }\n' % (i, i, i)
+            qrun.write_project(base, [(F[0], new_src.encode())])            # the reference is the NEW content alone
+            with open('%s/mutate%d.plan' % (work, i), 'w') as pf_:
+                pf_.write('x%s rewrite x%s\n' % (os.path.join(var, F[0]).encode().hex(), new_src.encode().hex()))
         child_as_nobody = False
         if ctx_kind == 'unreadable_file':
             os.chmod(var + '/src/zz/Sib.java', 0)
@@ -403,6 +415,9 @@ def check_c08(pid, tier, seed, res, work):
                 spelled, cwd_ = [(d, None), (bn, work), (d + '/', None), (d + '/../' + bn, None), ('./' + bn, work)][sp]
                 stats['spelling_%d' % sp] += 1
             cmd = [B + '/harness', 'init-dump', spelled, o]
+            if ctx_kind == 'changing' and name == 'context':
+                spelled = d
+                cmd = [B + '/harness', 'init-dump-mutate', d, o, '%s/mutate%d.plan' % (work, i)]
             if child_as_nobody and name == 'context':
                 cmd = ['setpriv', '--reuid=65534', '--regid=65534', '--clear-groups'] + cmd
             if ctx_kind == 'crowd' and name == 'context':
